@@ -756,8 +756,26 @@ func (h *c14h) report(k c14case, class, detail string, out []byte) {
 func (h *c14h) failCase(k c14case, class, detail string, out []byte) {
 	h.c.Outcome(k.t.name + ":FAIL:" + class)
 	reduced := false
+	if b := k.t.baseline(); true { // does the plainest record of the type fail the same way?
+		if cl, d, o, _ := h.judgeSingle(b); cl == class {
+			h.report(b, cl, d, o)
+			return
+		}
+	}
+	numsOff := false
+	for i, v := range k.n {
+		numsOff = numsOff || v != k.t.nums[i].vals[0]
+	}
+	if numsOff { // the numeric/optional slots alone?
+		p := k.t.baseline()
+		copy(p.n, k.n)
+		if cl, d, o, _ := h.judgeSingle(p); cl == class {
+			h.report(p, cl, d, o)
+			reduced = true
+		}
+	}
 	for i := range k.s {
-		if k.s[i] == k.t.base[i] {
+		if reduced || k.s[i] == k.t.base[i] {
 			continue
 		}
 		for _, keepNums := range []bool{false, true} {
@@ -771,14 +789,6 @@ func (h *c14h) failCase(k c14case, class, detail string, out []byte) {
 				reduced = true
 				break
 			}
-		}
-	}
-	if !reduced {
-		p := k.t.baseline()
-		copy(p.n, k.n)
-		if cl, d, o, _ := h.judgeSingle(p); cl == class {
-			h.report(p, cl, d, o)
-			reduced = true
 		}
 	}
 	if !reduced {
@@ -1176,15 +1186,15 @@ func (h *c14h) sequences() {
 			continue
 		}
 		h.c.Outcome("seq:FAIL:" + cl)
-		// canonical witnesses: the first three failing sequences of the same family/mode/capacity, same for every shard
-		ck := fmt.Sprintf("seq|%d|%v|%d|%s", sc.fam, sc.unique, sc.capa, cl)
+		// canonical witnesses: the first three failing sequences of the same family/mode, same for every shard
+		ck := fmt.Sprintf("seq|%d|%v|%s", sc.fam, sc.unique, cl)
 		if h.canon[ck] {
 			continue
 		}
 		h.canon[ck] = true
 		found := 0
 		for _, q := range all {
-			if q.fam != sc.fam || q.unique != sc.unique || q.capa != sc.capa || found >= 3 {
+			if q.fam != sc.fam || q.unique != sc.unique || found >= 3 {
 				continue
 			}
 			if qc, qd, qo := h.judgeSeq(q); qc == cl {
@@ -1214,8 +1224,8 @@ func verifC14(c *drv.Ctx) {
 		h.replay()
 		return
 	}
-	h.sequences()
 	h.values()
+	h.sequences()
 	if c.Shard == 0 {
 		names := make([]string, 0, len(h.sweeps))
 		for n := range h.sweeps {
